@@ -390,6 +390,25 @@ func c13(c *Ctx) {
 	}
 	c.remoteHaltFamily("remote-halt")
 
+	// ---- fuse lock file: the application-side entry of the halt protocol ----
+	lw := "fuse.(*LockHandle).lockWaitHalt"
+	uh := "fuse.(*LockHandle).unlockHalt"
+	c.ExpectAll("fuse/acquire-id", c.CallArgs(lw, p.Calls("litefs.(*DB).AcquireRemoteHaltLock"), 2), pat("p0.haltLockID"), 1, "the lock file handle acquires with its own stable lock id", "repeated acquire requests with the same lock ID return the same lock: an interrupted and retried FUSE call must reuse the id")
+	c.ExpectAll("fuse/release-id", c.CallArgs(uh, p.Calls("litefs.(*DB).ReleaseRemoteHaltLock"), 2), pat("p0.haltLockID"), 1, "... and releases with the same id", "")
+	c.OnlyIn("fuse/id-assigned-once", p.Writes("fuse.LockHandle.haltLockID"), []string{pat("fuse.newLockHandle")}, 1, "the handle's lock id is assigned only when the handle is created", "")
+	{
+		var got []string
+		for _, in := range Instrs(c.F(lw), p.Writes("fuse.LockHandle.haltLock")) {
+			got = append(got, fieldStoreVal(p, in))
+		}
+		c.ExpectAll("fuse/holder-recorded", got, pat("litefs.(*DB).AcquireRemoteHaltLock(@@)#0"), 1, "the handle records the lock the acquisition returned", "")
+	}
+	c.Guarded("fuse/release-only-when-held", uh, p.Calls("litefs.(*DB).ReleaseRemoteHaltLock"), gs(GP("(nil == p0.haltLock)", false)), 1, "the handle releases only a lock it holds", "")
+	c.Guarded("fuse/acquire-only-when-not-held", lw, p.Calls("litefs.(*DB).AcquireRemoteHaltLock"), gs(GP("(nil == p0.haltLock)", true)), 1, "the handle acquires only when it holds none", "")
+	c.OnlyIn("fuse/flush-releases", p.Calls(uh), []string{pat("fuse.(*LockHandle).Flush"), pat("fuse.(*LockHandle).Unlock")}, 2, "closing the lock file (Flush) and unlocking both release the halt lock", "a process that dies while holding the lock must not leave the primary halted until the TTL")
+	c.Guarded("fuse/halt-byte-only", "fuse.(*LockHandle).LockWait", p.Calls(lw), gs(GP("(72 == p2.Lock.Start)", true)), 1, "only the HALT byte (72) of the lock file starts the halt protocol", "")
+	c.Guarded("fuse/write-lock-only", lw, p.Calls("litefs.(*DB).AcquireRemoteHaltLock"), gs(GP("(1 == p2.Lock.Type)", true)), 1, "only an exclusive (write) lock request acquires the halt lock", "")
+
 	// ---- fuse entry ----
 	c.OnlyInScope("fuse/acquire-callers", []string{"fuse", "http", "litefs"}, p.Calls("litefs.(*DB).AcquireRemoteHaltLock"), []string{pat("fuse.(*LockHandle)@@"), pat("fuse.(*LockNode)@@"), pat("litefs.(*DB).AcquireRemoteHaltLock")}, 1,
 		"the remote halt lock is requested only from the fuse lock file handler", "")
